@@ -109,6 +109,9 @@ type c8world struct {
 	level             zapcore.Level
 }
 
+// c8holder: a struct with a member of open type.
+type c8holder struct{ V any }
+
 //go:noinline
 func c8recurse(d int, f func()) {
 	if d <= 0 {
@@ -136,6 +139,9 @@ func (w *c8world) probeFields() []zap.Field {
 		return nil
 	case 8:
 		return []zap.Field{zap.Reflect("bad", make(chan int)), zap.Int("after", 1), zap.Reflect("good", c8refl{2, "y", nil})}
+	case 10:
+		// containers of open type with well-formed content
+		return []zap.Field{zap.Any("m", map[string]any{"user": "alice", "n": 1}), zap.Any("l", []any{1, "two"}), zap.Reflect("h", c8holder{V: 3}), zap.Reflect("p", &c8holder{V: "x"})}
 	case 9:
 		// a reflected value whose MarshalJSON is a yield point: other tasks run
 		// while its rendering sits in the encoder's scratch space
@@ -261,7 +267,13 @@ func (w *c8world) history(kind, a int, lg *zap.Logger) {
 		w.probeLg.Info("entry without any field on the probe logger")
 	case 13:
 		// reflection that fails, alone or followed by more fields
-		switch a % 3 {
+		switch a % 5 {
+		case 3:
+			// the value fails, not its type: the same containers hold well-formed
+			// values in other entries (and in the probe)
+			lg.Info("unencodable member of a list", zap.Any("bad", []any{1, make(chan int)}), zap.Any("m", map[string]any{"c": complex(1, 2)}))
+		case 4:
+			lg.Info("unencodable value in an open field", zap.Reflect("bad", c8holder{V: func() {}}), zap.Reflect("p", &c8holder{V: make(chan int)}))
 		case 0:
 			lg.Info("unencodable reflected value", zap.Reflect("bad", make(chan int)))
 		case 1:
@@ -341,7 +353,7 @@ func runC08(c *Ctx) {
 	mkEnc := func(con bool) zapcore.Encoder { return mkEncI(con, "") }
 	w.probeSk = zsim.NewSimSink(r, "probe", 1+g.Draw(2), 11)
 	r.Label(unsafe.Pointer(w.probeSk), "probe")
-	w.recipe = g.Draw(10)
+	w.recipe = g.Draw(11)
 	w.level = pick(g, zapcore.InfoLevel, zapcore.ErrorLevel)
 	var popts []zap.Option
 	popts = append(popts, zap.WithClock(clk))
